@@ -3,10 +3,13 @@
 package main
 
 import (
+	"bufio"
 	"bytes"
 	"context"
 	"errors"
 	"fmt"
+	"os"
+	"os/exec"
 	"runtime"
 	"sort"
 	"strconv"
@@ -22,15 +25,17 @@ import (
 //
 // Lines (identifiers are 32-byte hex; everywhere else a node is its index in <universe>, index 0 = the local node):
 //
-//	lk <target> <universe> <table> <answers> <closeTable> <policy> | ok <events> <closest> <result> <asked> <seen> <queries>
+//	lk <target> <universe> <table> <answers> <closeTable> <policy> | ok <events> <closest> <result> <asked> <seen> <queries> <undrained>
 //	                                                                | err timeout <events>
 //	   table    indices in the order findnodeByID visits the buckets (as exported by the hook), "." = empty
 //	   answers  i<kind>:a,b,_,c;...   what the query function returns for peer i ("_" = nil entry); peers not listed
 //	            answer nothing.  kind h = no error, e = with an error, c = with errClosed (lookup.query skips trackRequest)
 //	   policy   <order>:<seed>:<cancelAfter>   order in which the harness lets outstanding queries return
-//	            (fifo|lifo|rnd|near|far|burst), cancelAfter = -1 or the number of completions after which the context is cancelled
+//	            (fifo|lifo|rnd|near|far|burst), cancelAfter = -1 or the number of completions after which the context is cancelled;
+//	            a 4th component 1 = the outstanding query functions ignore the cancellation for 2 ms (the lookup must wait)
 //	   events   S<i> query function entered for i, E<i> query function about to return for i, C = context cancelled,
-//	            T<i> lookup.query handed the answer of i to tab.trackRequest (it sends on the reply channel right after;
+//	   undrained  query functions still running when lookup.run returned (shutdown has to wait for all of them)
+//	            T<i> / T<i>+ lookup.query handed the answer of i to tab.trackRequest with success = false / true (it sends on the reply channel right after;
 //	            logged by the receiving goroutine, so only a hint for the order of the replies)
 //	push <target> <max> <ids> | ok <ids>            nodesByDistance.push applied left to right
 //	cl ...                                          content lookup, see c10_content.go
@@ -48,6 +53,7 @@ type c10case struct {
 	order      string
 	seed       uint64
 	cancelAt   int
+	hold       bool // outstanding query functions ignore the cancellation (like lookupWorker, which takes no context)
 }
 
 func init() { registry["C10"] = runC10 }
@@ -108,7 +114,11 @@ func (k *c10case) inputs() string {
 	if k.closeTable {
 		ct = 1
 	}
-	return fmt.Sprintf("lk %s %s %s %s %d %s:%d:%d", c10hexid(k.target), strings.Join(ids, ","), c10idxs(k.table), a, ct, k.order, k.seed, k.cancelAt)
+	hold := 0
+	if k.hold {
+		hold = 1
+	}
+	return fmt.Sprintf("lk %s %s %s %s %d %s:%d:%d:%d", c10hexid(k.target), strings.Join(ids, ","), c10idxs(k.table), a, ct, k.order, k.seed, k.cancelAt, hold)
 }
 
 func c10parse(f []string) *c10case {
@@ -132,6 +142,7 @@ func c10parse(f []string) *c10case {
 	k.order = pp[0]
 	k.seed, _ = strconv.ParseUint(pp[1], 10, 64)
 	k.cancelAt, _ = strconv.Atoi(pp[2])
+	k.hold = len(pp) > 3 && pp[3] == "1"
 	return k
 }
 
@@ -161,6 +172,8 @@ func c10exec(k *c10case) string {
 	burst := k.order == "burst"
 	nstarted := 0
 	ntracked := 0
+	nended := 0
+	undrained := 0
 
 	query := func(n *enode.Node) ([]*enode.Node, error) {
 		i := index[n.ID()]
@@ -187,9 +200,13 @@ func c10exec(k *c10case) string {
 			case wake <- struct{}{}:
 			default:
 			}
-			select {
-			case <-ch:
-			case <-ctx.Done():
+			if k.hold {
+				<-ch
+			} else {
+				select {
+				case <-ch:
+				case <-ctx.Done():
+				}
 			}
 		}
 		out := make([]*enode.Node, len(p.nodes))
@@ -210,9 +227,9 @@ func c10exec(k *c10case) string {
 		}
 		mu.Lock()
 		logev("E" + strconv.Itoa(i))
+		nended++
 		if p.kind == 'c' {
 			// no trackRequest for this one
-			logev("T" + strconv.Itoa(i))
 			ntracked++
 		}
 		mu.Unlock()
@@ -227,7 +244,11 @@ func c10exec(k *c10case) string {
 	onTrack := func(id enode.ID, success bool, found int) {
 		i := index[id]
 		mu.Lock()
-		logev("T" + strconv.Itoa(i))
+		if success {
+			logev("T" + strconv.Itoa(i) + "+") // trackRequest(n, success = true, ...)
+		} else {
+			logev("T" + strconv.Itoa(i))
+		}
 		ntracked++
 		mu.Unlock()
 		select {
@@ -253,9 +274,33 @@ func c10exec(k *c10case) string {
 
 	rng := NewRng(k.seed)
 	released := 0
-	deadline := time.After(20 * time.Second)
+	// a healthy run takes milliseconds (an empty table with tab.closeReq open: one 1 s slowdown)
+	bound := 5 * time.Second
+	deadline := time.After(bound)
 	var res portalwire.VerifLookupResult
 	finished := false
+	// run() has returned: how many query functions are still running?  (shutdown must have waited for all of them)
+	finish := func(o portalwire.VerifLookupResult) {
+		mu.Lock()
+		undrained = nstarted - nended
+		for i, ch := range blocked {
+			close(ch)
+			delete(blocked, i)
+		}
+		order = nil
+		mu.Unlock()
+		res = o
+		finished = true
+	}
+	releaseAll := func() {
+		mu.Lock()
+		for i, ch := range blocked {
+			close(ch)
+			delete(blocked, i)
+		}
+		order = nil
+		mu.Unlock()
+	}
 	for !finished {
 		// cancellation point
 		if !burst && k.cancelAt >= 0 && released == k.cancelAt && ctx.Err() == nil {
@@ -321,36 +366,45 @@ func c10exec(k *c10case) string {
 		}
 		select {
 		case o := <-done:
-			res = o.r
-			finished = true
+			finish(o.r)
 		case <-wake:
 		case <-tracked:
 		case <-ctx.Done():
-			// after cancellation every query returns by itself; wait for the lookup
-			select {
-			case o := <-done:
-				res = o.r
-				finished = true
-			case <-deadline:
-				mu.Lock()
-				ev := strings.Join(events, ",")
-				mu.Unlock()
-				return "err timeout " + ev
+			// after cancellation: in hold mode the outstanding query functions keep running for a moment - the
+			// lookup must not return before they have; then everything is let go and the lookup has to end
+			if k.hold {
+				select {
+				case o := <-done:
+					finish(o.r)
+				case <-time.After(2 * time.Millisecond):
+				}
+			}
+			for !finished {
+				releaseAll()
+				select {
+				case o := <-done:
+					finish(o.r)
+				case <-wake:
+				case <-tracked:
+				case <-deadline:
+					mu.Lock()
+					ev := strings.Join(events, ",")
+					mu.Unlock()
+					return "err timeout " + ev
+				}
 			}
 		case <-deadline:
 			mu.Lock()
 			ev := strings.Join(events, ",")
-			// let everything go so that the goroutines end
-			for _, ch := range blocked {
-				close(ch)
-			}
 			mu.Unlock()
+			// let everything go so that the goroutines end
+			releaseAll()
 			cancel()
 			return "err timeout " + ev
 		}
 	}
 	// every started query has been drained by now; its T event may still be on its way
-	for w := 0; w < 20000; w++ {
+	for w := 0; w < 4000 && (undrained == 0 || w < 40); w++ {
 		mu.Lock()
 		ok := ntracked == nstarted
 		mu.Unlock()
@@ -379,7 +433,7 @@ func c10exec(k *c10case) string {
 		}
 		return c10idxs(out)
 	}
-	return fmt.Sprintf("ok %s %s %s %s %s %d", ev, toIdx(res.Closest, false), toIdx(res.Nodes, false), toIdx(res.Asked, true), toIdx(res.Seen, true), res.Queries)
+	return fmt.Sprintf("ok %s %s %s %s %s %d %d", ev, toIdx(res.Closest, false), toIdx(res.Nodes, false), toIdx(res.Asked, true), toIdx(res.Seen, true), res.Queries, undrained)
 }
 
 // ---------------------------------------------------------------- generator
@@ -594,6 +648,10 @@ func c10gen(c *Ctx, n int) *c10case {
 			k.cancelAt = r.Intn(4)
 		}
 		c.Count("cancelled_runs")
+		if k.order != "burst" && r.Intn(2) == 0 {
+			k.hold = true
+			c.Count("cancelled_runs_holding_queries")
+		}
 	}
 	c.Count("order_" + k.order)
 	return k
@@ -618,9 +676,100 @@ func c10normaliseTable(k *c10case) {
 
 func c10emit(c *Ctx, k *c10case) {
 	c10normaliseTable(k)
-	out := c10exec(k)
-	c.Count("result_" + out[:2])
-	c.Emit("%s | %s", k.inputs(), out)
+	for _, ln := range c10batch([]string{k.inputs()}) {
+		c.Count("result_" + strings.TrimSpace(strings.SplitN(ln, "|", 2)[1])[:2])
+		c.Emit("%s", ln)
+	}
+}
+
+// Lookups run in a CHILD process (`C10 lkchild`, case inputs on stdin, one line out per case): a panic in one of the
+// lookup's own goroutines (nothing in this process could recover it) ends the child only; the case that was running is
+// reported as `<inputs> | panic <msg>` and a fresh child continues with the rest.
+func c10lkchild(c *Ctx) {
+	sc := bufio.NewScanner(os.Stdin)
+	sc.Buffer(make([]byte, 1<<20), 64<<20)
+	timeouts := 0
+	for sc.Scan() {
+		f := strings.Fields(sc.Text())
+		if len(f) < 7 || f[0] != "lk" {
+			continue
+		}
+		k := c10parse(f)
+		out := c10exec(k)
+		if k.cancelAt >= 0 {
+			// leave a moment for goroutines the lookup may have left behind, so that a crash is attributed to this case
+			time.Sleep(300 * time.Microsecond)
+		}
+		fmt.Printf("%s | %s\n", k.inputs(), out)
+		if strings.HasPrefix(out, "err timeout") {
+			// three lookups that never ended are enough: the remaining cases of the batch are not run
+			if timeouts++; timeouts >= 3 {
+				fmt.Println("STOP")
+				return
+			}
+		}
+	}
+}
+
+func c10batch(inputs []string) []string {
+	var outs []string
+	exe, err := os.Executable()
+	for len(outs) < len(inputs) {
+		if err != nil {
+			outs = append(outs, inputs[len(outs)]+" | err setup no-executable")
+			continue
+		}
+		rest := inputs[len(outs):]
+		cmd := exec.Command(exe, "C10", "lkchild")
+		stdin, _ := cmd.StdinPipe()
+		stdout, _ := cmd.StdoutPipe()
+		var stderr bytes.Buffer
+		cmd.Stderr = &stderr
+		if e := cmd.Start(); e != nil {
+			outs = append(outs, rest[0]+" | err setup "+strings.ReplaceAll(e.Error(), " ", "_"))
+			continue
+		}
+		go func() {
+			w := bufio.NewWriterSize(stdin, 1<<20)
+			for _, ln := range rest {
+				w.WriteString(ln)
+				w.WriteByte('\n')
+			}
+			w.Flush()
+			stdin.Close()
+		}()
+		got := 0
+		sc := bufio.NewScanner(stdout)
+		sc.Buffer(make([]byte, 1<<20), 64<<20)
+		stopped := false
+		for sc.Scan() {
+			ln := sc.Text()
+			if ln == "STOP" {
+				stopped = true
+			} else if strings.HasPrefix(ln, "lk ") && got < len(rest) {
+				outs = append(outs, ln)
+				got++
+			}
+		}
+		if stopped {
+			stdin.Close()
+			cmd.Process.Kill()
+			cmd.Wait()
+			return outs
+		}
+		cmd.Wait()
+		if got < len(rest) {
+			msg := "child-exited-without-a-line"
+			for _, ln := range strings.Split(stderr.String(), "\n") {
+				if strings.HasPrefix(ln, "panic:") || strings.HasPrefix(ln, "fatal error:") {
+					msg = strings.ReplaceAll(strings.TrimSpace(ln), " ", "_")
+					break
+				}
+			}
+			outs = append(outs, rest[got]+" | panic "+msg)
+		}
+	}
+	return outs
 }
 
 func c10push(c *Ctx, target enode.ID, max int, ids []enode.ID) {
@@ -673,6 +822,14 @@ func runC10(c *Ctx) {
 		c10replay(c, readReplayCases(c.Args[1]))
 		return
 	}
+	if len(c.Args) >= 1 && c.Args[0] == "lkchild" {
+		c10lkchild(c)
+		return
+	}
+	if len(c.Args) >= 1 && c.Args[0] == "clchild" {
+		c10clchild(c, c.Args[1:])
+		return
+	}
 	n := c.N
 	if n == 0 {
 		n = 700
@@ -699,23 +856,53 @@ func runC10(c *Ctx) {
 		c10push(c, t, m, ids)
 	}
 	sizes := []int{0, 0, 1, 2, 3, 4, 5, 8, 15, 16, 17, 18, 30, 33, 50, 64, 100, 150, 200}
-	slow := 1
+	// an empty starting table with tab.closeReq open: the lookup pauses once for 1 s (slowdown) and must then end by
+	// itself - no cancellation, nobody closes the table.  These runs wait on the clock, so they go on in the background.
+	nslow := 2
 	if c.Tier == "thorough" {
-		slow = 5
+		nslow = 6
 	}
+	if c.N > 0 && c.N < 100 {
+		nslow = 1
+	}
+	var slowIn []string
+	for i := 0; i < nslow; i++ {
+		k := c10gen(c, []int{0, 5, 1, 30, 2, 100}[i%6])
+		k.table = nil
+		k.closeTable = false
+		k.cancelAt = -1
+		k.hold = false
+		c10normaliseTable(k)
+		slowIn = append(slowIn, k.inputs())
+		c.Count("slowdown_1s_runs")
+	}
+	slowOut := make([][]string, nslow)
+	var wg sync.WaitGroup
+	for i := range slowIn {
+		wg.Add(1)
+		go func(i int) {
+			defer wg.Done()
+			slowOut[i] = c10batch(slowIn[i : i+1])
+		}(i)
+	}
+	var inputs []string
 	for i := 0; i < n; i++ {
 		sz := r.Pick(sizes)
 		if r.Intn(3) == 0 {
 			sz = r.Intn(201)
 		}
 		k := c10gen(c, sz)
-		// the 1 s slowdown path of an empty table (tab.closeReq open): a few runs only
-		if len(k.table) == 0 && slow > 0 {
-			k.closeTable = false
-			slow--
-			c.Count("slowdown_1s_runs")
-		}
-		c10emit(c, k)
+		c10normaliseTable(k)
+		inputs = append(inputs, k.inputs())
+	}
+	outs := c10batch(inputs)
+	wg.Wait()
+	for _, o := range slowOut {
+		outs = append(outs, o...)
+	}
+	for _, ln := range outs {
+		c.Count("result_" + strings.TrimSpace(strings.SplitN(ln, "|", 2)[1])[:2])
+		c.Emit("%s", ln)
 	}
 	c10content(c)
 }
